@@ -65,7 +65,7 @@ impl LuaDocParser {
 /// ASSUMED contract of the statement grammar (`grammar/lua/stat.rs`, not extracted): it reaches the
 /// parser state only through the driver and marker functions proved in this unit (module privacy of
 /// `events`/`tokens`/`token_index`), so it preserves `inv`, never moves the cursor backwards, never
-/// changes the number of tokens or the configuration, and leaves `mark_level` at least at its entry value.
+/// changes the number of tokens, their ranges (only `set_current_token_kind` writes a token, and only its kind) or the configuration, and leaves `mark_level` at least at its entry value.
 #[verifier::external_body]
 pub fn parse_stats(p: &mut LuaParser)
     requires
@@ -74,6 +74,7 @@ pub fn parse_stats(p: &mut LuaParser)
         inv(final(p)),
         final(p).token_index >= old(p).token_index,
         final(p).tokens@.len() == old(p).tokens@.len(),
+        ranges(final(p).tokens@) == ranges(old(p).tokens@),
         final(p).parse_config == old(p).parse_config,
         ev_mono(old(p).events@, final(p).events@),
         final(p).mark_level >= old(p).mark_level,
@@ -114,6 +115,7 @@ impl MarkerEventContainer for LuaParser<'_> {
     open spec fn sp_rest(&self) -> Rest {
         Rest { tokens: self.tokens@, token_index: self.token_index, current_token: self.current_token, doc: sp_support_doc(&self.parse_config) }
     }
+    proof fn lemma_events_bounded(&self) { assert(self.events.len() == self.events@.len()); }
     //@@ LuaParser::get_mark_level
     //@@ LuaParser::incr_mark_level
     //@@ LuaParser::decr_mark_level
